@@ -348,6 +348,10 @@ func c16Related(t *zsim.Tape, p *execSpec) *execSpec {
 			shape = 0
 		}
 		return v(13, shape)
+	case id == "script-with-escapes":
+		again := *p
+		again.ID = "again:" + p.ID
+		return &again
 	case strings.HasPrefix(id, "method-result"):
 		// nothing in the battery looks at method results: the program itself, run again, does
 		again := *p
@@ -361,7 +365,9 @@ func c16Related(t *zsim.Tape, p *execSpec) *execSpec {
 func c16Polluter(t *zsim.Tape) *execSpec {
 	gs := c16Globals()
 	guard := "\n\n拦截异常：\n\t输出“挡住”\n"
-	switch t.Draw(21) {
+	switch t.Draw(22) {
+	case 21: // text literals with escape sequences, a program one would run again and again
+		return &execSpec{ID: "script-with-escapes", Mode: "script", Main: "令表头 = “名称`TAB`数量`LF`”\n令行 = “苹果`TAB`3`CR``LF`”\n令字 = “`U+4E2D`文”\n（显示：表头、行、字）\n输出【表头，行，字】\n"}
 	case 20: // a request whose program takes the interpreter down (net/http recovers), once or hundreds of times
 		sp := c16HTTPSpec("http-request-patched", 0, true)
 		sp.Repeat = []int{1, 3, 127, 128, 129, 300}[t.Draw(6)]
@@ -535,6 +541,7 @@ func c16EnumPolluters() []*execSpec {
 	for body := 0; body < 3; body++ {
 		out = append(out, c16Response(body, true))
 	}
+	out = append(out, &execSpec{ID: "script-with-escapes", Mode: "script", Main: "令表头 = “名称`TAB`数量`LF`”\n令行 = “苹果`TAB`3`CR``LF`”\n令字 = “`U+4E2D`文”\n（显示：表头、行、字）\n输出【表头，行，字】\n"})
 	for _, n := range []int{1, 129, 300} {
 		sp := c16HTTPSpec("http-request-patched", 0, true)
 		sp.Repeat, sp.ID = n, fmt.Sprintf("http-program-crashes-host/x%d", n)
